@@ -14,7 +14,7 @@ Core Lean only.  Bytes are `Nat` (0..255), text after `.decode('UTF-8')` is `Lis
 -/
 import NetaddrVerif.Model.Basic
 import NetaddrVerif.Model.PyRuntime
-import NetaddrVerif.Gen.Tables
+import NetaddrVerif.Gen.Iana
 namespace NV.Registry
 
 /-! ## (a) IANA lookup -/
@@ -52,10 +52,12 @@ def withinBounds (ip : Addr) : Key → Bool
     else r.lo ≤ ip.val && r.hi ≥ ip.val
   | .addr a => ip.ver == a.ver && ip.val == a.val
 
-/-- `IPAddress.is_multicast()` for IPv4: `self in IPV4_MULTICAST`; the block is read from the
-    regenerated table (`Gen.ipv4Multicast`, rows `(kind, ver, first, last)`). -/
-def isMulticast4 (v : Nat) : Bool :=
-  Gen.ipv4Multicast.any (fun r => r.2.1 == 4 && r.2.2.1 ≤ v && v ≤ r.2.2.2)
+/-- `IPV4_MULTICAST` (`netaddr/ip/__init__.py`), regenerated from the imported module -/
+def multicastNet : Key := .net ⟨4, Gen.ipv4MulticastNet.1, Gen.ipv4MulticastNet.2⟩
+
+/-- `IPAddress.is_multicast()` for an IPv4 address: `self in IPV4_MULTICAST`, i.e. the same
+    `IPNetwork.__contains__` as above -/
+def isMulticast4 (v : Nat) : Bool := withinBounds ⟨4, v⟩ multicastNet
 
 /-- The four `IANA_INFO` dicts (entries in dict order). -/
 structure Tables where
